@@ -73,6 +73,7 @@ type Gen struct {
 	keyN   int
 
 	forceExported bool
+	aliasPtrs     bool // DestValue may let pointer fields of one type share their pointee (values validated in place only)
 }
 
 func (g *Gen) id() int { g.nextID++; return g.nextID }
